@@ -123,6 +123,28 @@ CLAIMED["C10"] = dict(
          "Not decided: that reads through the view return the records of that version (C01/C03), behaviour under real concurrency beyond the rely conditions."),
    design="4/C10", technique="contract-based deductive verification: ghost reader-closed state, snapshot postcondition of reloadOnce, map invariants")
 
+CLAIMED["C07"] = dict(
+   text=("Deductive proof of the step contracts of compaction on the real writeCompact/compactLocked/compactRange: the tables merged are exactly "
+         "st.stack[first..last] of the handle's view (which the commit guard ties to the current list), read from the very start (SeekRef(\"\"), "
+         "SeekLog(\"\", MaxUint64)); the writer's update-index limits are the first table's minimum and the last table's maximum; in every loop iteration "
+         "the record the merged iterator produced is handed to the writer exactly once and field for field unchanged, the only exception being a ref tombstone "
+         "when the range starts at the oldest table (first == 0); both loops end only when the iterator reports exhaustion; the list replacement commits exactly "
+         "the range that was merged (the G2 witnesses are the ghost record of what writeCompact merged). With C03 (merge order, newest wins, no suppression in a "
+         "raw merge) these are the per-step facts from which 'readers see the same' follows."),
+   note=TRUST + FS + (" Byte slices of a record are compared by the memory they refer to (no store to the record between NextRef and AddRef), not by content. Not decided "
+         "by contracts: the end-to-end equality of the views before and after (needs the table round trip C01 and an induction over the record sequence), nested and "
+         "repeated compactions as a history property. Writer.AddRef/AddLog are trusted to encode the record they are given (C01/C14)."),
+   design="4/C07", technique="contract-based deductive verification: ghost record of the last record yielded/taken, loop-step invariants, commit witnesses")
+CLAIMED["C13"] = dict(
+   text=("Deductive proof on the real writeCompact that a reflog record is dropped if and only if it is expired by the rule of the statement (older than the time "
+         "limit, or update index above the maximum or below the minimum of the window; 0 = no limit) - stated as a spec function taken from the statement, not from "
+         "the code - and that every other log record is handed to the writer field for field unchanged; ref records are never affected by the expiry configuration; "
+         "CompactAll passes its configuration unchanged down to the merge (ghost record checked at the commit), and a compaction with an expiry configuration is never "
+         "skipped as trivial (progress postcondition of compactRange)."),
+   note=TRUST + FS + (" Message normalisation by Writer.AddLog (trailing newline) is outside the comparison (the record is compared as given to AddLog). Not decided: the "
+         "byte-for-byte equality after the round trip through the table format (C01)."),
+   design="4/C13", technique="contract-based deductive verification: expiry predicate as spec function, iff loop-step invariant")
+
 NOT_APPLICABLE = {
  "C15": "relational property of two programs in two languages; no deductive verifier for C is installed and rtv reads Go SSA only (DESIGN.md section 4/C15)",
 }
